@@ -9,7 +9,7 @@ from runner import ToolingError, VERIF
 AXES = {"ancestor", "ancestor-or-self", "attribute", "child", "descendant", "descendant-or-self",
         "following", "following-sibling", "parent", "preceding", "preceding-sibling", "self"}
 
-BASE_PATHS = dict(ElemNames={"a", "b"}, AttrNames={"a"}, TextVals={"t"}, WithComment=True,
+BASE_PATHS = dict(ElemNames={"a", "b"}, AttrNames={"a", "b"}, TextVals={"t"}, WithComment=True,
                   StepAxes=AXES, TestKinds={"any", "node", "text", "comment"}, TestNames={"a", "b"})
 
 
@@ -88,6 +88,10 @@ def run_C01(run):
         run.gen_and_replay("MC_Paths", consts(BASE_PATHS, MaxNodes=3, MaxSteps=3, CatSteps=0,
                                               TestKinds={"any", "node", "text"}, TestNames={"a"}),
                            name="paths-alldocs-3step", kind="sel-set")
+    # (4) Flow B: seeded documents up to 20 nodes, paths up to 4 steps, recorded
+    #     from the engine and validated by TLC against the denotation
+    tr = run.drive("paths", 1500 if q else 20000, extra=["-nodes", "20", "-steps", "4"])
+    run.validate_batch(tr, "paths-flowB")
 
 
 def replay_one(run, path):
